@@ -354,7 +354,9 @@ func (fc *FnCtx) contractExprAtWith(st *State, c *Clause, pos token.Pos, extra m
 				ce.names["result"] = v
 			}
 		}
-		ce.scopePos = fc.fnBody.Lbrace + 1
+		if c.Kind == "ensures" || !pos.IsValid() {
+			ce.scopePos = fc.fnBody.Lbrace + 1
+		} // an `at return` clause also sees the locals in scope at that return statement
 	}
 	if c.Kind == "requires" {
 		ce.scopePos = fc.fnBody.Lbrace + 1
